@@ -84,6 +84,10 @@ class _SA:
         self.acc = []            # (coq_text, kind, lineno, end_lineno)
         self.params = params
         self.variants_seen = set()
+        self.saved = {}          # local name -> target whose _name it holds (own_name = getattr(field, "_name", None))
+        self.namevals = {}       # local / parameter name -> wvalue it denotes (a parameter bound to self._name)
+        self.module_fns = {}     # module-level functions of the same file (inlined when handed a shared Field object)
+        self.depth = 0
 
     # ---- helpers
     def emit(self, text, kind, node):
@@ -112,6 +116,10 @@ class _SA:
     def wvalue(self, e):
         if _is_self_name(e):
             return "VSelf"
+        if isinstance(e, ast.Name) and e.id in self.namevals:
+            return self.namevals[e.id]
+        if isinstance(e, ast.Name) and e.id in self.saved:
+            return "VSaved"          # the name read from the same object earlier is put back
         if isinstance(e, ast.BinOp) and isinstance(e.op, ast.Add) and _is_self_name(e.left):
             r = e.right
             if isinstance(r, ast.Constant) and r.value in SUFFIXES:
@@ -228,8 +236,26 @@ class _SA:
             return {"Field": "Each", "list": "Positional"}.get(test.args[1].id)
         return None
 
+    def name_read_target(self, value):
+        """X._name / getattr(X, "_name"[, default]) for a shared X -> its target"""
+        x = None
+        if isinstance(value, ast.Attribute) and value.attr == "_name":
+            x = value.value
+        elif (isinstance(value, ast.Call) and isinstance(value.func, ast.Name) and value.func.id == "getattr"
+              and len(value.args) in (2, 3) and isinstance(value.args[1], ast.Constant) and value.args[1].value == "_name"):
+            x = value.args[0]
+        if x is None:
+            return None
+        tg = self.target(x)
+        return tg if tg not in (None, "TSelf", "TPrivate") else None
+
     def assign_target(self, t, value, s):
         if isinstance(t, ast.Name):
+            tg = self.name_read_target(value)
+            if tg is not None:
+                self.saved[t.id] = tg
+                self.emit("(ASave %s %s %d)" % (tg, self.scope, s.lineno), "RB", s)
+                return
             if self.is_private_copy(value):
                 self.env[t.id] = "TPrivate"
                 self.alias.pop(t.id, None)
@@ -362,6 +388,34 @@ class _SA:
                     self.seen_loop = True
                     self.scope = "After"
                 return
+            # f(X, ...) with X a shared Field object: a module-level function of the same file is inlined with its
+            # parameters bound (X -> the target, self._name -> VSelf); anything else may do anything to X
+            if isinstance(f, ast.Name) and f.id not in ("getattr", "setattr", "isinstance", "hasattr", "str", "repr", "len", "type",
+                                                        "wrap_val", "_get_type_name", "id"):
+                shared_args = [(i, a, self.target(a)) for i, a in enumerate(e.args)
+                               if isinstance(a, ast.Name) and self.target(a) not in (None, "TSelf", "TPrivate")]
+                if shared_args:
+                    callee = self.module_fns.get(f.id)
+                    if callee is None or self.depth >= 2 or e.keywords:
+                        self.emit("(AUnrecognised %d)" % self.cur_stmt.lineno, "U", e)
+                        return
+                    cparams = [a.arg for a in callee.args.args]
+                    sub = _SA(callee, self.variant, self.helpers, cparams, self.file)
+                    sub.module_fns, sub.depth = self.module_fns, self.depth + 1
+                    sub.scope, sub.in_loop, sub.loop_idx = self.scope, self.in_loop, None
+                    for i, a in enumerate(e.args):
+                        if i >= len(cparams):
+                            break
+                        tg = self.target(a) if isinstance(a, ast.Name) else None
+                        if tg not in (None, "TPrivate"):
+                            sub.env[cparams[i]] = tg
+                        elif _is_self_name(a) or (isinstance(a, ast.Name) and a.id in self.namevals):
+                            sub.namevals[cparams[i]] = self.wvalue(a)
+                        elif isinstance(a, ast.Name) and a.id in self.scr:
+                            sub.scr[cparams[i]] = self.scr[a.id]
+                    sub.block([x for x in callee.body if not (isinstance(x, ast.Expr) and isinstance(x.value, ast.Constant))])
+                    self.acc += sub.acc
+                    return
         if isinstance(e, ast.Subscript) and isinstance(e.ctx, ast.Load):
             # S.__dict__[self._name]
             if isinstance(e.value, ast.Attribute) and e.value.attr == "__dict__" and _is_self_name(e.slice):
@@ -396,9 +450,10 @@ def _find_function(tree, cls, fn):
     return None
 
 
-def _sa_extract(fn, variant, helpers, file=None):
+def _sa_extract(fn, variant, helpers, file=None, module_fns=None):
     params = [a.arg for a in fn.args.args + fn.args.kwonlyargs]
     x = _SA(fn, variant, helpers, params, file)
+    x.module_fns = module_fns or {}
     body = [s for s in fn.body if not (isinstance(s, ast.Expr) and isinstance(s.value, ast.Constant))]
     x.block(body)
     return x.acc, x.variants_seen
@@ -447,10 +502,11 @@ def shared_access():
         if fn is None:
             entries.append({"name": base, "file": rel, "acc": [("(AUnrecognised 0)", "U", 0, 0, rel)]})
             continue
-        acc0, variants = _sa_extract(fn, None, helpers, rel)
+        mfns = {n.name: n for n in tree_of(rel).body if isinstance(n, ast.FunctionDef) and n.name not in helpers}
+        acc0, variants = _sa_extract(fn, None, helpers, rel, mfns)
         if variants:
             for v in sorted(variants):
-                acc, _ = _sa_extract(fn, v, helpers, rel)
+                acc, _ = _sa_extract(fn, v, helpers, rel, mfns)
                 entries.append({"name": "%s.%s" % (base, v), "file": rel, "acc": acc})
         else:
             entries.append({"name": base, "file": rel, "acc": acc0})
